@@ -102,7 +102,7 @@ def a_mtu_guard(prog):
                     if k == "place" and len(info) == 2 and info[1] == "f:0":
                         dd = c.fn.single_def(info[0])
                         if dd and dd[1] != "term" and dd[2]["k"] == "binop" and dd[2]["op"].startswith("Mul") and \
-                                127 in (const_int(dd[2]["a"]), const_int(dd[2]["b"])):
+                                ("c", 127) in (canon(c.fn, dd[2]["a"]), canon(c.fn, dd[2]["b"])):
                             if edge_dominates(c.fn, sb, tb, c.bb):
                                 ok127 = True
         if not ok127:
